@@ -71,6 +71,19 @@ type snapshot struct {
 	durable *cskit.Model
 	ever    map[uint32]map[string]cskit.Stamp
 	created map[uint32]bool
+	tomb    map[uint32]map[string]bool // values removed by deletes that had returned
+}
+
+func cloneTomb(t map[uint32]map[string]bool) map[uint32]map[string]bool {
+	out := make(map[uint32]map[string]bool, len(t))
+	for k, m := range t {
+		c := make(map[string]bool, len(m))
+		for v := range m {
+			c[v] = true
+		}
+		out[k] = c
+	}
+	return out
 }
 
 type witness struct {
@@ -370,7 +383,7 @@ type verdict struct {
 // bytes" of a recording. muts[k-1] must not be a marker.
 func evaluate(rec *recording, k, torn int) verdict {
 	s, muts := rec.s, rec.muts
-	prev := &snapshot{durable: cskit.NewModel(), ever: map[uint32]map[string]cskit.Stamp{}, created: map[uint32]bool{}}
+	prev := &snapshot{durable: cskit.NewModel(), ever: map[uint32]map[string]cskit.Stamp{}, created: map[uint32]bool{}, tomb: map[uint32]map[string]bool{}}
 	for j := k - 1; j >= 0; j-- {
 		if muts[j].Kind == recfs.Marker {
 			prev = rec.snaps[muts[j].Idx]
@@ -654,6 +667,13 @@ func judge(s *cskit.Script, muts []recfs.Mutation, k, torn int, prev, after *sna
 				st, ok := allowed[string(v)]
 				if !ok {
 					fails = append(fails, failure{class: "foreign-bytes", key: key, detail: fmt.Sprintf("channel %d returned a value never written for it: %x", key, v)})
+					bad = true
+					break
+				}
+				// a completed (returned) delete is persisted when it returns: what it removed
+				// must not come back after a crash at any later instant
+				if prev.tomb[key][string(v)] {
+					fails = append(fails, failure{class: "deleted-data-resurrected", key: key, detail: fmt.Sprintf("channel %d returned ts=%d, which a DeleteTimeRange that had returned before the crash point removed", key, st.TS)})
 					bad = true
 					break
 				}
